@@ -74,6 +74,14 @@ pub fn check(c: &Case, stats: &mut Stats) -> CheckResult {
             (Some((id, ..)), None) => return fail(format!("lookup/{pn}/hpo-phantom"), format!("hpo({k}) returned term {id} but {k} was never added; ids {:?}", m.ids)),
             (None, Some(_)) => return fail(format!("lookup/{pn}/hpo-missing"), format!("hpo({k}) is None but the term was added; ids {:?}", m.ids)),
         }
+        // the fallible constructor is the same lookup
+        match guarded(|| hpo::HpoTerm::try_new(&ont, *k).map(|t| (t.id().as_u32(), t.name().to_string())).ok()) {
+            Ok(t) => {
+                let want = m.idx.get(k).map(|i| (*k, m.names[*i].clone()));
+                ensure!(t == want, format!("lookup/{pn}/try_new"), "HpoTerm::try_new({k}) = {t:?}, expected {want:?}");
+            }
+            Err(p) => return fail(format!("lookup/{pn}/try_new-panic"), format!("HpoTerm::try_new({k}) panicked: {p}")),
+        }
     }
     // --- full sweep
     if c.sweep {
